@@ -375,19 +375,23 @@ res = {{}}
 def use(o):
     # what any caller does next with the object it was given: look at its attributes
     return [getattr(o, a) for a in ATTRS] and repr(o)
+objs = {{}}
 def run_a():
     sys.settrace(tracer)
     try:
         o = {expr}
     finally:
         sys.settrace(None); hold.set()
+    objs['a'] = o
     try:
         res['a'] = ('ok', use(o))
     except Exception as e:
         res['a'] = ('exc', type(e).__name__ + ': ' + str(e))
 def run_b():
     try:
-        res['b'] = ('ok', use({expr}))
+        o = {expr}
+        objs['b'] = o
+        res['b'] = ('ok', use(o))
     except Exception as e:
         res['b'] = ('exc', type(e).__name__ + ': ' + str(e))
 ta = threading.Thread(target=run_a); ta.start()
@@ -398,6 +402,9 @@ print('thread A (held at its line', K, '):', res.get('a'))
 print('thread B (ran meanwhile)      :', res.get('b'))
 if any(r is None or r[0] == 'exc' for r in (res.get('a'), res.get('b'))):
     print('REPRODUCED: a thread evaluating the same expression was handed an object that is not built yet'); sys.exit(1)
+later = {expr}
+if not (objs.get('a') is objs.get('b') is later):
+    print('REPRODUCED: the threads (and a later evaluation) hold different objects:', [hex(id(x)) for x in (objs.get('a'), objs.get('b'), later)]); sys.exit(1)
 sys.exit(0)
 """
 
@@ -456,10 +463,12 @@ def publication_side_condition(rep: report.Report) -> None:
                                     f"schedule on real threads shows it", key)
             continue
         rep.ob("sat", name, key)
+        what = (f"walks away with an object of its own although the table holds the creating thread's"
+                if r.get("other_object") else
+                f"is handed the object before its attributes {r['attrs']} are assigned")
         rep.violation(f"C20:half-built:{cname}",
                       f"{cname}: with the creating thread held at its line {found} inside the package, a thread "
-                      f"evaluating the same expression is handed the object before its attributes "
-                      f"{r['attrs']} are assigned (model schedule: {r['trace'][:8]})",
+                      f"evaluating the same expression {what} (model schedule: {r['trace'][:8]})",
                       publication_replay(cname, found, r["attrs"]))
     rep.functions.update(f"measured.{c}.__init__" for c in SETUP)
 
